@@ -26,6 +26,14 @@ CHECKS = {
    technique="TLA+ spec HttpParse.tla: the supported request grammar as a machine (one action per grammar token, 30 fault actions); every complete behaviour is a request whose meaning Denotes() and whose allowed treatment ObsOK() are TLA+ operators; behaviours enumerated by TLC (exhaustive per family + -simulate) and seeded random requests are concretised and presented as the first read of a connection to the real Request::read; Trace_HttpParse.tla judges every observation",
    text="TLC enumerates the grammar machine: header lines in four letter cases with repeated names and long values, every method x target x query shape, bodies of four sizes around the 1 KiB buffer x NUL first byte x NUL inside x Content-Length spelling, and every fault action (truncation at seven places, bad versions, missing separators, non-numeric/overflowing/empty Content-Length, NUL and non-UTF-8 bytes in target and values, unknown methods, non-origin-form targets, over-long lines) on three base requests. The real parser is run on the concrete bytes; for well-formed requests every public accessor (method, path.str(), query.iter(), typed header accessors, headers.get in two spellings, payload(), Debug) must return what the request denotes, without accessor panics and without waiting for input that had arrived; malformed bytes must be answered >= 400 or by closing.",
    note="only clearly malformed inputs generated; bare LF may be accepted or refused; error status free; first read only (segmentation is C06); trusted: concretisation table / fault applier / reverse table in harness/src/parse.rs, ScriptedReader"),
+ "C05": dict(level=MC, design="§4 C05",
+   technique="TLA+ spec Conn.tla (session loop + reads as actions over byte cells; Ideal(reqs) as oracle) model-checked with TLC; TLC-enumerated request histories (one segment per request) and random longer ones are executed on the real code twice (session-loop steps over a scripted reader via ohkami::__verif; the real Session::manage over a loopback socket); Trace_Conn.tla judges order, per-request payload, equality with the fresh-connection response and the end of the session",
+   text="TLC proves within the bounds that the modelled loop answers every request of a keep-alive connection in order with its own payload when each request arrives as one segment, and enumerates all histories of <=2/3 requests over heads of 1-2 cells and bodies from none to beyond the 1 KiB buffer, with Connection: close anywhere, NUL bytes at the start and inside bodies, many headers and a context-setting marker rotating through the scenarios; random histories have up to 10 requests. On the real code every response is compared byte for byte (Date excluded) with the response the same request gets alone on a fresh connection, from a handler that echoes everything observable (method, path, query, header map, payload digest, path param, context entry).",
+   note="quantifier of the property: one segment per request; on the socket a response is awaited before the next request is written; trusted: harness/src/conn.rs (padding to exact cell sizes, loop mirror for the in-memory execution, response splitter), ScriptedReader, parse_response, tokio loopback"),
+ "C06": dict(level=MC, design="§4 C06",
+   technique="TLA+ spec Conn.tla: segmentation as data; TLC checks that the modelled reads (first read, head loop, payload from buffer, read_exact, discarded leftovers) produce Ideal(reqs) for every request sequence x segmentation in bounds except where two requests share a segment (named deviation), and that with carry-over the property holds everywhere; every scenario of the model plus random ones is executed on the real code (scripted in-memory reader and real Session::manage over loopback TCP) and judged by Trace_Conn.tla; the recorded finding is matched by scenario class and outcome",
+   text="TLC enumerates every sequence of <=2 requests x every segmentation with <=2/3 cuts (inside the head, between head and body, inside the body, bodies larger than the remaining buffer, two requests in one segment) and proves the refinement with the single named deviation; the same scenarios (cuts jittered by up to 20 bytes inside a part) and random sequences of 2-5 requests with random cuts run on the real parser/session loop; the responses must be those of the unsegmented byte stream: one per request, in order, own payload, identical to the fresh-connection response. The open finding (requests sharing a segment are dropped) is reported as KNOWN-FINDING; any other class or outcome fails the check.",
+   note="heads fit the buffer; kernel may merge back-to-back writes (verdict independent of it; responses awaited at request boundaries); trusted: harness/src/conn.rs, ScriptedReader, parse_response, tokio loopback"),
 }
 
 # entries proposed in notes/Cnn.md (written by the builders of those checks) are picked up unless overridden above
